@@ -1313,14 +1313,17 @@ func c06Parallel(n, workers int, f func(i int)) {
 			defer wg.Done()
 			for i := range next {
 				f(i)
+				guardProgress.Add(1)
 			}
 		}()
 	}
-	for i := 0; i < n; i++ {
-		next <- i
-	}
-	close(next)
-	wg.Wait()
+	go func() { // fed from a goroutine of its own: with every worker stuck the guard must still be reached
+		for i := 0; i < n; i++ {
+			next <- i
+		}
+		close(next)
+	}()
+	guardedWait(&wg)
 }
 
 func c06Fold(run *ev.Run, o *c06Outcome, cells, crossCells map[string]bool, cross bool) {
